@@ -35,9 +35,39 @@ step that changes the configuration in the middle and re-expresses the object in
 atoms_prop(value=) or by re-building it.  All tolerances are relative to the working-unit magnitudes (printed precision in
 file units times the size of the file unit under the configuration in force at load time); the default working units are
 restored in a finally block of every oracle (the cases of one shard share a process).
+
+Round 5 (generator classes that caught seeded regressions in other properties, carried over; all judged by the same judge_*
+functions):
+  A result ledger: every System a load returned and every prop_info list a dump returned is entered in a _Ledger with a
+    bit-for-bit record taken at return time and compared with it again after all later calls of the case (the second load, the
+    re-dump, the dump + load of ANOTHER system, the run under the other working-unit configuration, the later steps of a
+    history); results of different calls must not share memory with each other or with the arrays of the dumped system;
+  B caller-side mutation: every container handed IN (the system's arrays, prop_info dicts, the prop_name / table_name / shape /
+    unit / dtype lists, symbols, pbc, the Box of load('table')) must be bit-identical after the call; post-ops drawn per case:
+    'sin' the caller overwrites the dumped system's arrays in place, re-defines its box through the setter and scribbles over
+    the containers it passed, 'sout' it does the same to the loaded System and the returned prop_info, 'redump' a fresh
+    identical system is dumped again with fresh arguments (same text, same prop_info), 'other' another system (other natoms,
+    other numbers) goes through the same dump + load in between; the second load always uses freshly built arguments;
+  C storage and input dtypes: per-atom arrays stored as float32 / float16 (values rounded to the storage dtype first: exactly
+    representable by construction) / big-endian / int8 .. uint16 up to the dtype limits / bool, Fortran-ordered, strided,
+    read-only, or handed over as lists / tuples (gens_c08.stored); loader-side dtype entries 'float32', 'int16', numpy dtype
+    objects, Python types (gens_c08.dtype_token) whose result must have that dtype;
+  D working-unit configuration: the unit plans of round 4;
+  E near-threshold values: tilt / box length = +-10**[-12,-3] (judged against the cell a Box holds after its documented 1e-9
+    clean-up, the rung itself avoided), atoms 10**[-12,-3] off a face / the centre, property values almost integer / almost 0;
+  F many decades: the values of one property column spanning 1e-8 .. 1e8 and rows of relative coordinates spanning 1 .. 1e-8,
+    every element judged against its own magnitude (exponent formats: tolerance relative to the element);
+  G exactly structured cells: lower-triangular cells whose tilts are exact halves / negatives / cancel (xy + xz == 0) / a whole
+    box length, for table and POSCAR also signed permutations of the axes, upper-triangular cells with reversed vectors,
+    cyclically relabelled cells, cells centred on the origin;
+  H clause `combos` (enumerated): every ordered pair of atom styles as a sequence in one process (hybrid a b, a, b, atomic with
+    the ledger across), every ordered subset of the pos / spos / upos / supos columns with every unit treatment, every
+    writer route x loader route x pos unit of the table format, every coordstyle x scale x symbols x format of POSCAR.
 """
+import copy
 import functools
 import io
+import itertools
 import os
 import tempfile
 
@@ -115,6 +145,9 @@ K_VOLUME = 'C08:atom_data:volume-unit-missing'
 K_LJ_ANG = 'C08:atom_data:lj-ang-units'
 K_LJ_TORQUE = 'C08:atom_dump:lj-torque-none'
 K_UPOS = 'C08:atom_dump:upos-scaled-with-pos'
+K_STORAGE = 'C08:dump:unit-conversion-in-the-storage-dtype'
+K_BIGENDIAN = 'C08:dump:non-native-byte-order-columns:pandas-raises'
+K_POSCAR_F4 = 'C08:poscar:cartesian-box_scale-division-in-the-storage-dtype'
 
 
 # ----------------------------------------------------------------------------- tree state (guards only)
@@ -222,9 +255,17 @@ class _Ux:
         sizes = {k: G.own_unit_size(u) for k, u in xunits.items()}
         if any(v is None for v in sizes.values()):
             return S
+        f0 = G.unit_factors()
         _apply(self.uc, self.R)
         self.crossed = True
-        return G.physical(S['raw'], {k: G.own_unit_size(u) / sizes[k] for k, u in xunits.items()})
+        ratio = {k: G.own_unit_size(u) / sizes[k] for k, u in xunits.items()}
+        if S.get('restored'):
+            # the system holds numbers rounded to a storage dtype (round 5): the same physical system in R's units
+            return G.rescaled(S, f0, G.unit_factors(), ratio)
+        S2 = G.physical(S['raw'], ratio)
+        if S.get('store'):
+            S2['store'] = S['store']
+        return S2
 
 
 def _cfg_text(cfg):
@@ -273,9 +314,12 @@ def _with_units(case, run):
     import atomman as am
     import atomman.unitconvert as uc
     plan = case.get('units')
+    led = _Ledger()
     if plan is None:
         try:
-            return run(am, case, None)
+            labels = set(run(am, case, None, led))
+            led.verify(labels)
+            return labels
         except Violation as v:
             raise Violation(v.detail + _trail_note(), key=v.key) from None
     own = [plan[k] for k in ('pre', 'W', 'R') if plan[k] is not None]
@@ -283,13 +327,15 @@ def _with_units(case, run):
         if plan['pre'] is not None:
             _apply(uc, plan['pre'])
             try:
-                run(am, case, _Ux(uc, None))
+                run(am, case, _Ux(uc, None), led)
             except Violation as v:
                 raise Violation('%s [under %s]%s' % (v.detail, _cfg_text(plan['pre']), _trail_note(own)), key=v.key) from None
+            led.rounds += 1
         _apply(uc, plan['W'])
         ux = _Ux(uc, plan['R'])
         try:
-            labels = set(run(am, case, ux))
+            labels = set(run(am, case, ux, led))
+            led.verify(labels, ' (the dumps + loads under the other working-unit configuration included)' if led.rounds else '')
         except Violation as v:
             raise Violation('%s [dump under %s%s%s]%s' % (
                 v.detail, _cfg_text(plan['W']), ', loads under ' + _cfg_text(plan['R']) if ux.crossed else '',
@@ -346,6 +392,18 @@ class _Tmp:
 
 def _dump(system, style, target, tmp, **kw):
     """writes through the drawn target; returns (text, other return values as a list)"""
+    try:
+        return _dump_(system, style, target, tmp, **kw)
+    except ValueError as e:
+        if 'Big-endian buffer not supported' in str(e):
+            be = [k for k in system.atoms_prop() if not np.asarray(system.atoms.view[k]).dtype.isnative]
+            if be:
+                raise Violation("dump(%r) raises ValueError: %s - the system stores %r in non-native byte order and the DataFrame "
+                                "built by System.atoms_df hands those arrays to pandas as they are" % (style, e, be), key=K_BIGENDIAN) from None
+        raise
+
+
+def _dump_(system, style, target, tmp, **kw):
     if target == 'str':
         r = system.dump(style, **kw)
         if isinstance(r, tuple):
@@ -416,6 +474,8 @@ def cmp_values(name, got, exp, tol, what):
     got = np.asarray(got)
     require(got.shape == exp.shape, lambda: '%s: property %r has shape %r, expected %r' % (what, name, got.shape, exp.shape))
     if exp.dtype.kind == 'i':
+        if got.dtype.kind == 'b':
+            got = got.astype('int64')               # a property stored as bool is written True / False and read back as bool
         require(got.dtype.kind in 'iu' or np.all(got == np.round(got)),
                 lambda: '%s: integer property %r came back as %r' % (what, name, got.dtype))
         bad = got != exp
@@ -465,7 +525,7 @@ def shape_labels(S, written, loaded_with_prop_info=True):
 
 
 def cell_labels(S, sysd):
-    labs = gens.cell_labels(sysd['cell'])
+    labs = G.cell_labels(sysd['cell']) | G.x_labels(sysd) | G.store_labels(S)
     smin, smax = _relbounds(S)
     if (smin < 0).any() or (smax >= 1).any():
         labs.add('outside')
@@ -487,6 +547,291 @@ def check_symbols_passthrough(loaded, S, what):
                 lambda: '%s: symbols %r, passed %r' % (what, got, exp))
 
 
+# ============================================================================= ledger and caller-side mutation (round 5)
+
+def _fingerprint(L):
+    """bit-for-bit record of a System: cell, pbc, symbols and every per-atom array (dtype, shape, content)"""
+    props = {}
+    for k in L.atoms_prop():
+        v = np.asarray(L.atoms.view[k])
+        props[k] = (v.dtype.str, v.shape, v.tobytes())
+    return {'natoms': int(L.natoms), 'vects': np.array(L.box.vects), 'origin': np.array(L.box.origin),
+            'pbc': [bool(b) for b in L.pbc], 'symbols': tuple(L.symbols), 'props': props}
+
+
+def _fp_diff(a, b, skip=(), cell=True):
+    """None when two fingerprints are equal, else what differs"""
+    if a['natoms'] != b['natoms']:
+        return 'natoms %d vs %d' % (a['natoms'], b['natoms'])
+    if cell and not (np.array_equal(a['vects'], b['vects']) and np.array_equal(a['origin'], b['origin'])):
+        return 'cell %r %r vs %r %r' % (a['vects'].tolist(), a['origin'].tolist(), b['vects'].tolist(), b['origin'].tolist())
+    if a['pbc'] != b['pbc'] or a['symbols'] != b['symbols']:
+        return 'pbc / symbols %r %r vs %r %r' % (a['pbc'], a['symbols'], b['pbc'], b['symbols'])
+    if sorted(a['props']) != sorted(b['props']):
+        return 'property lists %r vs %r' % (sorted(a['props']), sorted(b['props']))
+    for k, (dt, shp, raw) in a['props'].items():
+        if k in skip:
+            continue
+        if (dt, shp, raw) != b['props'][k]:
+            va = np.frombuffer(raw, dtype=dt).reshape(shp)
+            vb = np.frombuffer(b['props'][k][2], dtype=b['props'][k][0]).reshape(b['props'][k][1])
+            return 'property %r: %s %r vs %s %r' % (k, dt, va.tolist(), b['props'][k][0], vb.tolist())
+    return None
+
+
+def _sys_arrays(L):
+    return [(k, np.asarray(L.atoms.view[k])) for k in L.atoms_prop()]
+
+
+def _same_tree(a, b):
+    """deep equality of argument containers (dicts, lists, tuples, arrays, scalars): same types, same content"""
+    if isinstance(a, np.ndarray) or isinstance(b, np.ndarray):
+        return isinstance(a, np.ndarray) and isinstance(b, np.ndarray) and a.dtype == b.dtype and a.shape == b.shape and \
+            np.array_equal(a, b)
+    if type(a) is not type(b):
+        return False
+    if isinstance(a, dict):
+        return list(a) == list(b) and all(_same_tree(a[k], b[k]) for k in a)
+    if isinstance(a, (list, tuple)):
+        return len(a) == len(b) and all(_same_tree(x, y) for x, y in zip(a, b))
+    return a == b
+
+
+class _Args:
+    """keyword arguments of one atomman call with a pristine deep copy: `fresh()` builds new containers for the next call,
+    `check()` requires that the call left the ones it was given as they were"""
+    SKIP = ('box', 'f')
+
+    def __init__(self, kw):
+        self.kw = kw
+        self.pristine = {k: copy.deepcopy(v) for k, v in kw.items() if k not in self.SKIP}
+
+    def check(self, what):
+        for k, v in self.pristine.items():
+            require(_same_tree(self.kw[k], v), lambda: '%s changed the %s argument it was given: %r -> %r' % (what, k, v, self.kw[k]))
+
+    def fresh(self):
+        kw = dict(self.kw)
+        kw.update({k: copy.deepcopy(v) for k, v in self.pristine.items()})
+        return kw
+
+    def scribble(self):
+        """the caller re-uses the containers it passed for something else"""
+        for k in self.pristine:
+            _scribble(self.kw[k])
+
+
+def _scribble(v):
+    if isinstance(v, dict):
+        for k in list(v):
+            if isinstance(v[k], (dict, list)):
+                _scribble(v[k])
+            else:
+                v[k] = 'scaled' if k == 'unit' and v[k] != 'scaled' else None
+        v['overwritten'] = True
+    elif isinstance(v, list):
+        for q in v:
+            _scribble(q)
+        v.reverse()
+        v.append('overwritten')
+    elif isinstance(v, np.ndarray) and v.flags.writeable:
+        v[...] = 0
+
+
+def _scribble_system(L, factor=3.0):
+    """the caller overwrites every per-atom array of L in place and re-defines its box through the setter"""
+    for k, v in _sys_arrays(L):
+        if v.flags.writeable:
+            if v.dtype.kind == 'f':
+                v *= -factor
+                v += 1
+            elif v.dtype.kind in 'iu':
+                v[...] = v[::-1].copy() // 2
+            elif v.dtype.kind == 'b':
+                v[...] = ~v
+    L.box_set(vects=np.array(L.box.vects)[::-1] * np.array([[1.0], [-2.0], [0.5]]), origin=np.array(L.box.origin) + 1.0)
+    L.pbc = [not b for b in L.pbc]
+
+
+class _Ledger:
+    """every System a load handed out and every prop_info list a dump handed out, with a record taken at return time (which the
+    judges have compared with the snapshot then): what the caller holds must stay that result whatever is computed afterwards,
+    and results of different calls must not share memory with each other or with the dumped system"""
+
+    def __init__(self):
+        self.systems, self.infos, self.inputs, self.rounds = [], [], [], 0
+
+    def add_system(self, L, where):
+        self.systems.append((L, _fingerprint(L), where, self.rounds))
+        return L
+
+    def add_info(self, pi, where):
+        if pi is not None:
+            self.infos.append((pi, copy.deepcopy(pi), where))
+        return pi
+
+    def add_input(self, system, where):
+        self.inputs.append((system, _fingerprint(system), where))
+
+    def forget(self, obj):
+        """the caller has overwritten obj itself: it is no longer a result to be kept"""
+        self.systems = [e for e in self.systems if e[0] is not obj]
+        self.infos = [e for e in self.infos if e[0] is not obj]
+        self.inputs = [e for e in self.inputs if e[0] is not obj]
+
+    def verify(self, labels=None, after=''):
+        for L, fp, where, _ in self.systems:
+            d = _fp_diff(fp, _fingerprint(L))
+            require(d is None, lambda: 'the System returned by %s changed after later calls%s (at return time vs now): %s' % (where, after, d))
+        for pi, snap, where in self.infos:
+            require(_same_tree(pi, snap), lambda: 'the prop_info returned by %s changed after later calls%s: %r -> %r' % (where, after, snap, pi))
+        for system, fp, where in self.inputs:
+            d = _fp_diff(fp, _fingerprint(system))
+            require(d is None, lambda: 'the system written by %s changed after later calls%s: %s' % (where, after, d))
+        arrs = [((j, where), k, v) for j, (L, _, where, _) in enumerate(self.systems) for k, v in _sys_arrays(L)]
+        ins = [(where, k, v) for system, _, where in self.inputs for k, v in _sys_arrays(system)]
+        for i, (w1, k1, v1) in enumerate(arrs):
+            for w2, k2, v2 in arrs[i + 1:]:
+                if w1[0] == w2[0]:
+                    continue
+                require(not (np.may_share_memory(v1, v2) and np.shares_memory(v1, v2)),
+                        lambda: 'property %r of the System returned by %s shares memory with property %r of the one returned by %s' % (k1, w1, k2, w2))
+            for w2, k2, v2 in ins:
+                require(not (np.may_share_memory(v1, v2) and np.shares_memory(v1, v2)),
+                        lambda: 'property %r of the System returned by %s shares memory with property %r of the system that was written (%s)' % (k1, w1, k2, w2))
+        for i, (p1, _, w1) in enumerate(self.infos):
+            for p2, _, w2 in self.infos[i + 1:]:
+                require(p1 is not p2 and not any(a is b for a in p1 for b in p2),
+                        lambda: 'the prop_info lists returned by %s and by %s are / share the same objects' % (w1, w2))
+        if labels is not None and len(self.systems) >= 2:
+            labels.add('ledger')
+            if len({e[1]['natoms'] for e in self.systems}) >= 2:
+                labels.add('ledger_other_natoms')
+            if len({e[3] for e in self.systems}) >= 2:
+                labels.add('ledger_across_rounds')
+
+
+def _fp_array(fp, k):
+    dt, shp, raw = fp['props'][k]
+    return np.frombuffer(raw, dtype=dt).reshape(shp)
+
+
+def same_as_record(fp, L, what, skip=()):
+    """identical result: the System L is bit for bit what the record fp (taken from another load) says"""
+    d = _fp_diff(fp, _fingerprint(L), skip)
+    require(d is None, lambda: '%s: differs from the System loaded from the pristine text: %s' % (what, d))
+
+
+def _after_dump(dargs, before, system, what, wrapped=False):
+    """the call left its argument containers as they were, and the system too (wrapped: the documented in-place wrap of
+    dump('atom_data', safecopy=False) may move positions and cell, nothing else)"""
+    dargs.check(what)
+    d = _fp_diff(before, _fingerprint(system), ('pos',) if wrapped else (), not wrapped)
+    require(d is None, lambda: '%s changed the system it wrote (before vs after): %s' % (what, d))
+
+
+def _post_ops(x, led, system, L0, prop_info, dargs, largs, redump, other):
+    """what the caller does between the judged load and the second load (x['post'], drawn per case); returns the record of L0
+    taken before anything was touched and the labels of what was done"""
+    fp0 = _fingerprint(L0)
+    labs = set()
+    post = x['post'] if x is not None else ()
+    if 'other' in post:
+        other()
+        labs.add('post_other')
+    if 'sin' in post:
+        led.forget(system)
+        for v in list(dargs.kw.values()) + list(largs.kw.values()):
+            led.forget(v)
+        _scribble_system(system)
+        dargs.scribble()
+        largs.scribble()
+        labs.add('post_in')
+    if 'sout' in post:
+        led.forget(L0)
+        _scribble_system(L0, 7.0)
+        if prop_info is not None:
+            led.forget(prop_info)
+            _scribble(prop_info)
+        labs.add('post_out')
+    if 'redump' in post and redump is not None:
+        redump()
+        labs.add('post_redump')
+    return fp0, labs
+
+
+def _storage_overflow(S, converted, text, what):
+    """the listed finding in its blunt form: a float16 / float32 stored column divided by the unit in its storage dtype left
+    the range of that dtype, the file holds inf / nan / an empty field (which shifts every later column)"""
+    narrow = _narrow_unit_props(S, converted)
+    if narrow and (' \n' in text or '  ' in text or text.endswith(' ') or any(t in ('inf', '-inf', 'nan') for t in text.split())):
+        raise Violation('%s: the file holds inf / nan / empty fields for the float16 / float32 stored column(s) %r written through a '
+                        'unit conversion (unitconvert.get_in_units divides in the storage dtype)' % (what, narrow), key=K_STORAGE)
+
+
+class _Known:
+    """comparisons that may fail for a LISTED finding only (a float32 / float16 stored column written through a unit
+    conversion): collected, the rest of the judge goes on, raised with the key at the end"""
+    def __init__(self, S, converted):
+        self.narrow = _narrow_unit_props(S, converted)
+        self.S = S
+        self.found = []
+
+    def cmp(self, name, got, exp, tol, what):
+        if name not in self.narrow:
+            return cmp_values(name, got, exp, tol, what)
+        try:
+            cmp_values(name, got, exp, tol, what)
+        except Violation as v:
+            if v.key is not None:
+                raise
+            self.found.append(Violation('%s [the system stores %r as %s and the column is written through a unit conversion: '
+                                        'unitconvert.get_in_units divides in the storage dtype]' % (v.detail, name, self.S['store'][name][0]),
+                                        key=K_STORAGE))
+
+    def defer(self, name, v):
+        """a Violation v that hangs on the float32 / float16 stored column `name` (else it is raised as it is)"""
+        if name not in self.narrow or v.key is not None:
+            raise v
+        self.found.append(Violation('%s [the system stores %r as %s and the column is written through a unit conversion: '
+                                    'unitconvert.get_in_units divides in the storage dtype]' % (v.detail, name, self.S['store'][name][0]),
+                                    key=K_STORAGE))
+
+    def raise_if_found(self):
+        if self.found:
+            raise self.found[0]
+
+
+def _other_snapshot(S):
+    """another system for the 'other' post-op: the atoms of S in reverse order without the first one (one atom: the same atom
+    elsewhere), float properties rescaled, integer properties shifted; consistent with every option drawn for S"""
+    n = len(S['s'])
+    idx = np.arange(n)[::-1][:max(1, n - 1)]
+    S2 = dict(S)
+    S2.pop('raw', None)
+    s = S['s'][idx] * 0.75 + 0.125
+    S2['s'], S2['pos'], S2['atype'] = s, s @ S['V'] + S['o'], S['atype'][idx]
+    props = {}
+    for k, v in S['props'].items():
+        v = v[idx]
+        if k == 'atom_id':
+            props[k] = v
+        elif v.dtype.kind == 'f':
+            props[k] = v * 0.5
+        else:
+            props[k] = v
+    S2['props'] = props
+    if S2.get('store'):
+        S2['store'] = {k: [dt if dt[-2:] not in ('f4', 'f2') else 'f8', 'copy' if lay == 'readonly' else lay] for k, (dt, lay) in S2['store'].items()}
+    return S2
+
+
+def _narrow_unit_props(S, converted):
+    """names among `converted` (properties written with a unit conversion) that the system stores as float32 / float16"""
+    st_ = S.get('store') or {}
+    return [k for k in converted if k in st_ and st_[k][0][-2:] in ('f4', 'f2')]
+
+
 # ============================================================================= data file
 
 @st.composite
@@ -502,12 +847,28 @@ def data_cases(draw):
     if vel:
         want += [('velocity', (3,), 'f', 'velocity')] + list(vcols)
     sysd = draw(G.systems_for(True, tuple(want), (0, 1), False))
-    return {'sys': sysd,
+    case = {'sys': sysd,
             'opt': {'style': style, 'units': units, 'fmt': fmt, 'safecopy': draw(_bool), 'target': draw(TARGETS),
                     'give_style': draw(_bool)},
             'pert': {'keys': draw(_keys12), 'keys2': draw(_keys12), 'shuffle': draw(_bool), 'comments': draw(_bool),
                      'blank': draw(_bool), 'title': draw(_bool), 'source': draw(SOURCES)},
             'units': draw(G.S_PLAN)}
+    return _with_x(case, draw(G.S_X), True)
+
+
+def _with_x(case, x, lammps, posdec_ok=False):
+    """the round-5 classes are drawn LAST (the draws of the earlier rounds keep their places) and put into the case"""
+    case['sys'] = G.apply_x(case['sys'], x, lammps, posdec_ok)
+    case['x'] = _xo(x)
+    return case
+
+
+def _xo(x):
+    """the part of the drawn classes that the oracle interprets (the rest is already in the system dict)"""
+    return {'store': x['store'], 'dt': x['dt'], 'post': x['post']}
+
+
+X_PLAIN = _xo(G.X_NONE)
 
 
 def _section_rows(lines, keyword, n):
@@ -563,8 +924,11 @@ def data_tolerances(S, fmt, Ulen):
     K = np.maximum(1.0, np.abs(s).max(axis=0)) + 1.0
     B = np.abs(o) + (K[:, None] * np.abs(V)).sum(axis=0)          # magnitude bound of anything printed, per component
     d = tol_for(fmt, Ulen, B)
-    floor = 2e-9 * np.abs(V).max()
     pbc = np.array(S['pbc'])
+    # Box zeroes components up to 1e-9 of the LARGEST one (documented): the wrap stretches non-periodic directions over the
+    # atoms, so the largest component of the written cell can be that much larger than the one of the snapshot
+    stretch = max([1.0] + [max(1.0, s[:, i].max()) - min(0.0, s[:, i].min()) + 0.002 for i in range(3) if not pbc[i]])
+    floor = 2e-9 * np.abs(V).max() * stretch
     F = np.where(pbc, np.abs(np.floor(s)).max(axis=0) + 1.0, 0.0)
     return dict(d=d, tV=2 * d + floor, to=d + floor, tpos=d * (1 + 2 * F.sum()) + floor * (1 + F.sum()))
 
@@ -614,21 +978,25 @@ def oracle_data(case):
     return _with_units(case, _run_data)
 
 
-def _run_data(am, case, ux):
+def _run_data(am, case, ux, led=None):
     sysd = case['sys']
+    x = case.get('x') or X_PLAIN
     S = G.snapshot(sysd)
     if ux is not None:
         S = G.physical(S)
+    # read-only positions and an in-place wrap (safecopy=False) contradict each other: the caller's mistake, not generated
+    S = G.stored(S, x['store'], readonly=bool(case['opt']['safecopy']))
     tmp = _Tmp()
     try:
-        return judge_data(am, G.make_system(am, S), S, case['opt'], case['pert'], tmp, cell_labels(S, sysd), ux)
+        return judge_data(am, G.make_system(am, S), S, case['opt'], case['pert'], tmp, cell_labels(S, sysd), ux, led, x)
     finally:
         tmp.close()
 
 
-def judge_data(am, system, S, opt, pert, tmp, labels, ux=None):
+def judge_data(am, system, S, opt, pert, tmp, labels, ux=None, led=None, x=None):
     """one dump('atom_data') of `system` (whose state is the snapshot S) + load, judged against S"""
     n = len(S['s'])
+    led = led if led is not None else _Ledger()
     style, units, fmt = opt['style'], opt['units'], opt['fmt']
     if units == 'lj':
         fmt = _wfmt(fmt)
@@ -640,17 +1008,25 @@ def judge_data(am, system, S, opt, pert, tmp, labels, ux=None):
         labels.add('velocities')
     subs = style.split()[1:] if style.startswith('hybrid') else [style]
     if True:
+        dargs = _Args(dict(atom_style=style, units=units, float_format=fmt, safecopy=opt['safecopy']))
+        before = _fingerprint(system)
         try:
-            text, rest = _dump(system, 'atom_data', opt['target'], tmp, atom_style=style, units=units,
-                               float_format=fmt, safecopy=opt['safecopy'])
+            text, rest = _dump(system, 'atom_data', opt['target'], tmp, **dargs.kw)
         except KeyError as e:
-            if e.args == ('volume',) and any(x in G.VOLUME_STYLES for x in subs):
+            if e.args == ('volume',) and any(x_ in G.VOLUME_STYLES for x_ in subs):
                 raise Violation("dump('atom_data', atom_style=%r) raises KeyError('volume'): lammps.style.unit() has no "
                                 "volume entry" % style, key=K_VOLUME) from None
-            if e.args == ('None',) and units == 'lj' and 'velocity' in S['props'] and any(x in ('sphere', 'ellipsoid') for x in subs):
+            if e.args == ('None',) and units == 'lj' and 'velocity' in S['props'] and any(x_ in ('sphere', 'ellipsoid') for x_ in subs):
                 raise Violation("dump('atom_data', atom_style=%r, units='lj') with velocities raises KeyError('None'): the lj "
                                 "'ang-mom'/'ang-vel' units are the strings 'None*None*None' and '1/None'" % style, key=K_LJ_ANG) from None
             raise
+        whatd = "dump('atom_data', atom_style=%r, units=%r, float_format=%r, safecopy=%r)" % (style, units, fmt, opt['safecopy'])
+        _after_dump(dargs, before, system, whatd, wrapped=not opt['safecopy'])
+        if opt['safecopy']:
+            led.add_input(system, whatd)
+        if units != 'lj':
+            _storage_overflow(S, ['pos'] + [c[0] for c in carried if c[3] is not None], text, whatd)
+        S0 = S
         if ux is not None:
             # a data file names no unit, but `units` fixes the unit of every dimensional column (lj: none at all)
             S = ux.switch(S, units != 'lj', {})
@@ -659,8 +1035,11 @@ def judge_data(am, system, S, opt, pert, tmp, labels, ux=None):
             kw['symbols'] = list(S['symbols'])
         if opt['give_style']:
             kw['atom_style'] = style
+        largs = _Args(kw)
         L0 = _load(am, 'atom_data', text, **kw)
         what = "load('atom_data') of dump(atom_style=%r, units=%r, float_format=%r)" % (style, units, fmt)
+        largs.check(what)
+        led.add_system(L0, what)
         require(L0.natoms == n, lambda: '%s: natoms %d, expected %d' % (what, L0.natoms, n))
         def U(q):
             # hybrid styles have been seen to write their columns in metal units whatever `units` is (C07's finding):
@@ -669,17 +1048,39 @@ def judge_data(am, system, S, opt, pert, tmp, labels, ux=None):
             return max(u, unit_scale(am, 'metal', q)) if style.startswith('hybrid') and units != 'lj' else u
         Ulen = U('length')
         T = data_tolerances(S, fmt, Ulen)
-        labels |= check_wrapped_cell(L0, S, T, what)
+        if (S.get('store') or {}).get('pos', ('f8',))[0] == 'f4':
+            # positions kept as float32: the wrap (System.wrap, documented to act on the system / its copy) stores the wrapped
+            # coordinates in that array, i.e. rounds them to float32 - the precision the caller chose for the positions
+            K = np.maximum(1.0, np.abs(S['s']).max(axis=0)) + 1.0
+            T['tpos'] = T['tpos'] + 2.0 ** -23 * (np.abs(S['o']) + (K[:, None] * np.abs(S['V'])).sum(axis=0))
+            labels.add('wrap_in_float32')
+        known = _Known(S, ['pos'] + [c[0] for c in carried if c[3] is not None] if units != 'lj' else [])
+        try:
+            labels |= check_wrapped_cell(L0, S, T, what)
+        except Violation as v:
+            known.defer('pos', v)               # float32 positions: the written coordinates decide the extension of the cell
         require(list(L0.pbc) == list(S['pbc']), lambda: '%s: pbc %r, passed %r' % (what, L0.pbc, S['pbc']))
         check_symbols_passthrough(L0, S, what)
         have = L0.atoms_prop()
         for name in ['atype', 'pos'] + [c[0] for c in carried]:
             require(name in have, lambda: '%s: property %r missing (have %r)' % (what, name, have))
         cmp_values('atype', L0.atoms.atype, S['atype'], 0, what)
-        cmp_values('pos', L0.atoms.pos, S['pos'], T['tpos'], what + ' [image flags re-applied]')
+        known.cmp('pos', L0.atoms.pos, S['pos'], T['tpos'], what + ' [image flags re-applied]')
         for name, shape, dt, q in carried:
             exp = S['props'][name]
-            cmp_values(name, L0.atoms.view[name], exp, tol_for(fmt, U(q), exp), what)
+            known.cmp(name, L0.atoms.view[name], exp, tol_for(fmt, U(q), exp), what)
+        # ---- what the caller does in between (round 5): another system through the same calls, the arguments and the system
+        # that was written overwritten in place, the loaded System overwritten, the same system written again
+        def other():
+            S2 = _other_snapshot(S)
+            judge_data(am, G.make_system(am, S2), S2, opt, pert, tmp, set(), None, led, None)
+
+        def redump():
+            t2, _ = _dump(G.make_system(am, S0), 'atom_data', opt['target'], tmp, **dargs.fresh())
+            require(t2 == text, lambda: '%s of an identical fresh system a second time gives another text:\n%s\nfirst:\n%s' % (whatd, t2, text))
+        fp0, plabs = _post_ops(x, led, system, L0, None, dargs, largs, None if ux is not None and ux.crossed else redump, other)
+        labels |= plabs
+        kw = largs.fresh()
         # ---- perturbed text, other source: identical result
         s = S['s']
         # image-flag columns present?  (decided from the column count of the first atom line against the style table)
@@ -703,16 +1104,18 @@ def judge_data(am, system, S, opt, pert, tmp, labels, ux=None):
             if stream and _stream_eof(e):
                 raise Violation('%s raises %s: %s' % (what2, type(e).__name__, str(e)[:200]), key=K_STREAM) from None
             raise
-        same_system(L0, L1, what2, skip=('pos',))
-        p0, p1 = np.asarray(L0.atoms.pos), np.asarray(L1.atoms.pos)
-        if not np.array_equal(p0, p1):
+        led.add_system(L1, what2)
+        same_as_record(fp0, L1, what2, skip=('pos',))
+        p0, p1 = _fp_array(fp0, 'pos'), np.asarray(L1.atoms.pos)
+        if not (p0.dtype == p1.dtype and np.array_equal(p0, p1)):
             key = None
             if flagged and perm_moves:
                 # diagnosis of the listed finding: the difference is a whole lattice translation per atom
-                m = (p1 - p0) @ np.linalg.inv(np.asarray(L0.box.vects))
+                m = (p1 - p0) @ np.linalg.inv(fp0['vects'])
                 if np.abs(m - np.round(m)).max() <= 1e-6 * max(1.0, np.abs(m).max()):
                     key = K_FLAGS
             raise Violation('%s: positions differ from those of the pristine text:\n%r\nvs\n%r' % (what2, p1.tolist(), p0.tolist()), key=key)
+        known.raise_if_found()
         if perm_moves:
             labels.add('shuffled')
             if flagged:
@@ -761,7 +1164,7 @@ def _unit_token(draw, name, meta, std_ok):
     return u
 
 
-def build_truth(am, S, names, unit_tokens, dtype_flags, lammps_units=None):
+def build_truth(am, S, names, unit_tokens, dtype_flags, lammps_units=None, dt_bytes=None):
     """truth entries (see gens_c08.describe) of the columns `names`; 'std' resolved to the unit string of the LAMMPS unit
     style (only ever passed on to both the writer and the loader, and used to scale the tolerance)"""
     truth = []
@@ -776,9 +1179,23 @@ def build_truth(am, S, names, unit_tokens, dtype_flags, lammps_units=None):
         if u == 'std':
             q = 'length' if nm in POSVARS else S['meta'][nm]['q']
             u = None if lammps_units is None else am.lammps.style.unit(lammps_units)[q]
-        truth.append({'name': nm, 'shape': shape, 'unit': u,
-                      'dtype': ('int64' if dt == 'i' else 'float64') if dtype_flags[i % len(dtype_flags)] else None})
+        entry = {'name': nm, 'shape': shape, 'unit': u,
+                 'dtype': ('int64' if dt == 'i' else 'float64') if dtype_flags[i % len(dtype_flags)] else None}
+        if dt_bytes is not None:
+            # round 5: the data type "explicitly given" in the other documented ways (narrow dtypes, dtype objects, types)
+            vals = S['atype'] if nm == 'atype' else S['pos'] if nm in POSVARS else S['props'][nm] if nm in S['props'] else np.arange(1, len(S['s']) + 1)
+            tok = G.dtype_token(dt_bytes[i % len(dt_bytes)], dt, float(np.min(vals)), float(np.max(vals)))
+            if tok is not None and not (dt == 'f' and np.dtype(tok[1]).itemsize < 8 and not _f32_ok(vals)):
+                entry['dtype'], entry['np'] = tok
+        truth.append(entry)
     return truth
+
+
+def _f32_ok(vals):
+    """float32 can hold these numbers (in whatever unit they end up: 8 decades of head room on both sides)"""
+    a = np.abs(np.asarray(vals, dtype=float))
+    a = a[a > 0]
+    return a.size == 0 or (a.min() > 1e-30 and a.max() < 1e30)
 
 
 def unit_size(u):
@@ -825,11 +1242,12 @@ def dump_cases(draw):
     want = [w for i, w in enumerate(want) if w not in want[:i]]
     sysd = draw(G.systems_for(True, tuple(want), (0, 2), True, True))
     prop_name, cols = _dump_opt(draw, sysd, units)
-    return {'sys': sysd,
+    case = {'sys': sysd,
             'opt': {'units': units, 'fmt': fmt, 'target': draw(TARGETS), 'prop_name': prop_name,
                     'use_prop_info': draw(_bool), 'cols': cols},
             'pert': {'keys': draw(_keys12), 'shuffle': draw(_bool), 'source': draw(SOURCES)},
             'units': draw(G.S_PLAN)}
+    return _with_x(case, draw(G.S_X), True, True)
 
 
 def perturb_dump(text, n, pert):
@@ -844,16 +1262,55 @@ def oracle_dump(case):
     return _with_units(case, _run_dump)
 
 
-def _run_dump(am, case, ux):
+def _run_dump(am, case, ux, led=None):
     sysd = case['sys']
+    x = case.get('x') or X_PLAIN
     S = G.snapshot(sysd)
     if ux is not None:
         S = G.physical(S)
+    S = G.stored(S, x['store'])
     tmp = _Tmp()
     try:
-        return judge_dump(am, G.make_system(am, S), S, case['opt'], case['pert'], tmp, cell_labels(S, sysd), ux)
+        return judge_dump(am, G.make_system(am, S), S, case['opt'], case['pert'], tmp, cell_labels(S, sysd), ux, led, x)
     finally:
         tmp.close()
+
+
+def _rtol(r, exp):
+    """tolerance of a value that the loader was told to round to float32 / float16 (r: relative rounding error of that
+    dtype): relative in the normal range, the spacing of the subnormals below it, nothing asserted beyond the largest number"""
+    if not r:
+        return 0.0
+    fi = np.finfo(np.float32 if r < 1e-6 else np.float16)
+    a = np.abs(np.asarray(exp, dtype=float))
+    return np.where(a > float(fi.max) * 0.99, np.inf, r * a + float(fi.smallest_subnormal))
+
+
+def _told_dtypes(kw):
+    """{property name: dtype} that the keyword arguments of a load state explicitly (lists route or prop_info dicts)"""
+    out = {}
+    if kw.get('prop_info') is not None:
+        for d in kw['prop_info']:
+            if d.get('dtype') is not None:
+                out[d['prop_name']] = np.dtype(d['dtype'])
+    elif kw.get('dtype') is not None and kw.get('prop_name') is not None:
+        for nm, d in zip(kw['prop_name'], kw['dtype']):
+            if d is not None:
+                out[nm] = np.dtype(d)
+    return out
+
+
+def _check_told_dtype(L, name, told, key, what):
+    """the data type "explicitly given" for a column is the data type of the loaded property (atype and pos exist in every
+    Atoms object with types of their own: values are assigned into them, only the rounding shows); returns the extra
+    tolerance factor (relative) of a result rounded to float32"""
+    d = told.get(key)
+    if d is None:
+        return 0.0
+    got = np.asarray(L.atoms.view[name]).dtype
+    require(got == d or name in ('pos', 'atype'),
+            lambda: '%s: property %r was loaded with the explicitly given dtype %r but has dtype %r' % (what, name, d, got))
+    return 2.0 ** -24 * 1.0001 if d.kind == 'f' and d.itemsize == 4 else 2.0 ** -11 * 1.0001 if d.kind == 'f' and d.itemsize == 2 else 0.0
 
 
 def _cross_eligible(S, truth):
@@ -872,9 +1329,10 @@ def _cross_eligible(S, truth):
     return ok, xunits
 
 
-def judge_dump(am, system, S, opt, pert, tmp, labels, ux=None):
+def judge_dump(am, system, S, opt, pert, tmp, labels, ux=None, led=None, x=None):
     """one dump('atom_dump') of `system` (whose state is the snapshot S) + load, judged against S"""
     n = len(S['s'])
+    led = led if led is not None else _Ledger()
     units, fmt = opt['units'], opt['fmt']
     if units == 'lj':
         fmt = _wfmt(fmt)
@@ -886,20 +1344,29 @@ def judge_dump(am, system, S, opt, pert, tmp, labels, ux=None):
         truth = None
         if cols is not None:
             # the columns described explicitly: separate lists (whole lists left out, None entries) or prop_info dicts
-            truth = build_truth(am, S, prop_name, cols['units'], cols['dtypes'], units)
+            truth = build_truth(am, S, prop_name, cols['units'], cols['dtypes'], units, x['dt'] if x is not None else None)
             dkw, dl, id_named = G.describe('atom_dump', 'dump', cols['dvia'], truth, cols['dmask'], cols['dflav'])
             kwd.update(dkw)
             labels.add('dump_via_' + cols['dvia'])
             labels |= {'dump_' + x for x in dl}
         elif prop_name is not None:
             kwd['prop_name'] = list(prop_name)
+        dargs = _Args(kwd)
+        before = _fingerprint(system)
         try:
             text, rest = _dump(system, 'atom_dump', opt['target'], tmp, **kwd)
         except TypeError as e:
             if units == 'lj' and "unsupported operand type(s) for +: 'NoneType' and 'str'" in str(e):
                 raise Violation("dump('atom_dump', lammps_units='lj') raises TypeError: %s (torque unit built from None)" % e, key=K_LJ_TORQUE) from None
             raise
-        prop_info = rest[0]
+        whatd = "dump('atom_dump', %s)" % ', '.join('%s=%r' % kv for kv in sorted(dargs.pristine.items()))
+        _after_dump(dargs, before, system, whatd)
+        led.add_input(system, whatd)
+        prop_info = led.add_info(rest[0], whatd)
+        pi0 = copy.deepcopy(prop_info)
+        S0 = S
+        _storage_overflow(S, [('pos' if pi['prop_name'] in POSVARS else pi['prop_name']) for pi in prop_info
+                              if pi['unit'] is not None and pi['unit'] != 'scaled'], text, whatd)
         if ux is not None:
             # without explicit descriptions every standard quantity is carried in the unit of `lammps_units` (lj: none)
             ok, xunits = _cross_eligible(S, truth) if truth is not None else (True, {})
@@ -940,7 +1407,11 @@ def judge_dump(am, system, S, opt, pert, tmp, labels, ux=None):
                 ', prop_info=<returned>' if use_pi else '', units, fmt, prop_name)
         if 'prop_info' in kw and (truth is None or cols['lvia'] == 'returned'):
             labels.add('with_prop_info')
+        largs = _Args(kw)
         L0 = _load(am, 'atom_dump', text, **kw)
+        largs.check(what)
+        led.add_system(L0, what)
+        told = _told_dtypes(kw)
         require(L0.natoms == n, lambda: '%s: natoms %d, expected %d' % (what, L0.natoms, n))
         # ---- cell and pbc
         V, o, s = S['V'], S['o'], S['s']
@@ -967,12 +1438,29 @@ def judge_dump(am, system, S, opt, pert, tmp, labels, ux=None):
         if has_id:
             require('atom_id' in have, lambda: '%s: atom_id missing (have %r)' % (what, have))
             cmp_values('atom_id', L0.atoms.view['atom_id'], ids, 0, what)
+            _check_told_dtype(L0, 'atom_id', told, 'atom_id', what)
         cmp_values('atype', L0.atoms.atype, S['atype'][order], 0, what)
         # ---- positions
         posvars = [k for k in written if k in POSVARS]
         firstpos = posvars[0]
         labels.add('first_' + firstpos)
         tunit = {e['name']: e['unit'] for e in truth} if truth is not None else {}
+        # columns written through a unit conversion (for the listed finding on float32 / float16 stored columns)
+        if truth is not None:
+            conv = [('pos' if e['name'] in POSVARS else e['name']) for e in truth if e['unit'] is not None and e['unit'] != 'scaled']
+        else:
+            conv = (['pos'] + [k for k in written if k in S['props'] and S['meta'][k]['q'] is not None]) if units != 'lj' else []
+        known = _Known(S, conv)
+        # the reader keeps ONE of the position columns as pos: its dtype is checked when there is only one
+        r32 = 0.0
+        if len(posvars) == 1:
+            r32 = _check_told_dtype(L0, 'pos', told, posvars[0], what)
+        elif any(k in told and told[k].kind == 'f' and told[k].itemsize < 8 for k in posvars):
+            r32 = 2.0 ** -11 * 1.0001
+        if told:
+            labels.add('told_dtype')
+            if any(d.itemsize < 8 for d in told.values()):
+                labels.add('told_narrow_dtype')
         # the reader may take the positions from any of the position columns present: widest of their tolerances
         tpos = np.zeros_like(S['pos'])
         scaled_cols = False
@@ -992,6 +1480,7 @@ def judge_dump(am, system, S, opt, pert, tmp, labels, ux=None):
             # relative coordinates are unscaled with the cell read from the file (loaded box: V +- tV, o +- to)
             tpos = np.maximum(tpos, ds @ np.abs(V) + np.abs(s) @ np.broadcast_to(tV, (3, 3)) + to + r_x)
             labels.add('scaled_cols')
+        tpos = tpos + _rtol(r32, S['pos'])
         try:
             cmp_values('pos', L0.atoms.pos, S['pos'][order], tpos[order], what)
         except Violation as v:
@@ -1002,7 +1491,7 @@ def judge_dump(am, system, S, opt, pert, tmp, labels, ux=None):
                 # listed finding: the writer fills the xu yu zu columns from the pos columns AFTER those were scaled
                 raise Violation(v.detail + " [pos written with unit 'scaled' next to upos columns, which then hold "
                                 "box-relative values although their unit says Cartesian]", key=K_UPOS) from None
-            raise
+            known.defer('pos', v)
         # ---- other properties
         for k in written:
             if k in POSVARS or k in ('atom_id', 'atype'):
@@ -1012,7 +1501,24 @@ def judge_dump(am, system, S, opt, pert, tmp, labels, ux=None):
             if use_pi or (len(meta['shape']) == 0) or meta['q'] is not None:
                 require(k in have, lambda: '%s: property %r missing (have %r)' % (what, k, have))
                 U = unit_size(tunit[k]) if truth is not None else unit_scale(am, units, meta['q'])
-                cmp_values(k, L0.atoms.view[k], exp, tol_for(fmt, U, exp), what)
+                r = _check_told_dtype(L0, k, told, k, what)
+                known.cmp(k, L0.atoms.view[k], exp, tol_for(fmt, U, exp) + _rtol(r, exp), what)
+        # ---- what the caller does in between (round 5)
+        def other():
+            S2 = _other_snapshot(S)
+            judge_dump(am, G.make_system(am, S2), S2, opt, pert, tmp, set(), None, led, None if x is None else dict(x, post=[]))
+
+        def redump():
+            t2, r2 = _dump(G.make_system(am, S0), 'atom_dump', opt['target'], tmp, **dargs.fresh())
+            require(t2 == text, lambda: '%s of an identical fresh system a second time gives another text:\n%s\nfirst:\n%s' % (whatd, t2, text))
+            require(_same_tree(r2[0], pi0), lambda: '%s a second time returns another prop_info: %r, first %r' % (whatd, r2[0], pi0))
+            led.add_info(r2[0], whatd + ' (second time)')
+        own_pi = kw.get('prop_info') is prop_info
+        fp0, plabs = _post_ops(x, led, system, L0, prop_info, dargs, largs, None if ux is not None and ux.crossed else redump, other)
+        labels |= plabs
+        kw = largs.fresh()
+        if own_pi:
+            kw['prop_info'] = copy.deepcopy(pi0)
         # ---- perturbed / other source
         perm_moves = id_known and pert['shuffle'] and _perm(pert['keys'], n) != list(range(n))
         text2 = perturb_dump(text, n, pert) if perm_moves else text
@@ -1027,7 +1533,9 @@ def judge_dump(am, system, S, opt, pert, tmp, labels, ux=None):
             if stream and _stream_eof(e):
                 raise Violation('%s raises %s: %s' % (what2, type(e).__name__, str(e)[:200]), key=K_STREAM) from None
             raise
-        same_system(L0, L1, what2)
+        led.add_system(L1, what2)
+        same_as_record(fp0, L1, what2)
+        known.raise_if_found()
         if perm_moves:
             labels.add('shuffled')
         if stream:
@@ -1078,12 +1586,13 @@ def table_cases(draw):
         want.append(('velocity', (3,), 'f', 'velocity'))
     sysd = draw(G.systems_for(False, tuple(want), (1, 3), True, True))
     entries, cols = _table_opt(draw, sysd)
-    return {'sys': sysd,
+    case = {'sys': sysd,
             'opt': {'entries': entries, 'fmt': draw(st.sampled_from(['%.13f', '%.8f', '%.5e', '%.16e'])),
                     'header': draw(_bool), 'target': draw(TARGETS), 'cols': cols},
             'pert': {'keys': draw(_keys12), 'shuffle': draw(_bool), 'comments': draw(_bool), 'blank': draw(_bool),
                      'source': draw(SOURCES)},
             'units': draw(G.S_PLAN)}
+    return _with_x(case, draw(G.S_X), False, True)
 
 
 def perturb_table(text, n, pert, header, can_shuffle):
@@ -1106,22 +1615,25 @@ def oracle_table(case):
     return _with_units(case, _run_table)
 
 
-def _run_table(am, case, ux):
+def _run_table(am, case, ux, led=None):
     sysd = case['sys']
+    x = case.get('x') or X_PLAIN
     S = G.snapshot(sysd)
     if ux is not None:
         S = G.physical(S)
+    S = G.stored(S, x['store'])
     tmp = _Tmp()
     try:
-        return judge_table(am, G.make_system(am, S), S, case['opt'], case['pert'], tmp, cell_labels(S, sysd), ux)
+        return judge_table(am, G.make_system(am, S), S, case['opt'], case['pert'], tmp, cell_labels(S, sysd), ux, led, x)
     finally:
         tmp.close()
 
 
-def judge_table(am, system, S, opt, pert, tmp, labels, ux=None):
+def judge_table(am, system, S, opt, pert, tmp, labels, ux=None, led=None, x=None):
     """one dump('table') of `system` (whose state is the snapshot S) + load, judged against S"""
     import atomman.unitconvert as uc
     n = len(S['s'])
+    led = led if led is not None else _Ledger()
     fmt = _wfmt(opt['fmt'])
     labels.update({'fmt_' + fmt[-1], 'src_' + pert['source']})
     if True:
@@ -1132,7 +1644,8 @@ def judge_table(am, system, S, opt, pert, tmp, labels, ux=None):
         truth = None
         if cols is not None:
             # the columns described explicitly: separate lists (whole lists left out, None entries) or prop_info dicts
-            truth = build_truth(am, S, [e['name'] for e in entries], [e['unit'] for e in entries], cols['dtypes'])
+            truth = build_truth(am, S, [e['name'] for e in entries], [e['unit'] for e in entries], cols['dtypes'], None,
+                                x['dt'] if x is not None else None)
             dkw, dl, id_named = G.describe('table', 'dump', cols['dvia'], truth, cols['dmask'], cols['dflav'])
             kwd.update(dkw)
             labels.add('dump_via_' + cols['dvia'])
@@ -1151,8 +1664,16 @@ def judge_table(am, system, S, opt, pert, tmp, labels, ux=None):
             written = [e['name'] for e in entries]
         else:
             written = ['atype', 'pos'] + list(S['props'])
+        dargs = _Args(kwd)
+        before = _fingerprint(system)
         text, rest = _dump(system, 'table', opt['target'], tmp, **kwd)
-        prop_info = rest[0]
+        whatd = "dump('table', %s)" % ', '.join('%s=%r' % kv for kv in sorted(dargs.pristine.items()))
+        _after_dump(dargs, before, system, whatd)
+        led.add_input(system, whatd)
+        prop_info = led.add_info(rest[0], whatd)
+        pi0 = copy.deepcopy(prop_info)
+        S0 = S
+        _storage_overflow(S, [k for k, u in units.items() if u not in (None, 'scaled')], text, whatd)
         if ux is not None and entries is not None:
             # a table whose dimensional columns all carry an explicit unit (or are box-relative) holds the physical system
             ok, xunits = _cross_eligible(S, [{'name': e['name'], 'unit': e['unit']} for e in entries])
@@ -1182,26 +1703,39 @@ def judge_table(am, system, S, opt, pert, tmp, labels, ux=None):
         what = "load('table', %s) of dump('table', %s, float_format=%r, header=%r)" % (
             how, ', '.join('%s=%r' % kv for kv in sorted(kwd.items()) if kv[0] in (
                 'prop_name', 'table_name', 'shape', 'unit', 'dtype', 'prop_info')) or 'all properties', fmt, opt['header'])
+        largs = _Args(kw)
+        box0 = (np.array(box.vects), np.array(box.origin))
         L0 = _load(am, 'table', text, **kw)
+        largs.check(what)
+        led.add_system(L0, what)
+        told = _told_dtypes(kw)
+        if told:
+            labels.add('told_dtype')
+            if any(d.itemsize < 8 for d in told.values()):
+                labels.add('told_narrow_dtype')
         require(L0.natoms == n, lambda: '%s: natoms %d, expected %d' % (what, L0.natoms, n))
         require(np.array_equal(L0.box.vects, box.vects) and np.array_equal(L0.box.origin, box.origin),
                 lambda: '%s: the box passed to load was changed' % what)
+        require(np.array_equal(box.vects, box0[0]) and np.array_equal(box.origin, box0[1]),
+                lambda: '%s: the box passed to load was changed: %r %r' % (what, box.vects, box.origin))
         check_symbols_passthrough(L0, S, what)
         id_col = entries is not None and any(e['as_id'] for e in entries) and (truth is None or id_named)
         order = np.argsort(S['props']['atom_id'], kind='stable') if id_col else np.arange(n)
         have = L0.atoms_prop()
         V, o, s = S['V'], S['o'], S['s']
         conv = False
+        known = _Known(S, [k for k in written if units.get(k) not in (None, 'scaled')])
         for k in written:
             exp = (S['atype'] if k == 'atype' else S['pos'] if k == 'pos' else S['props'][k])[order]
             require(k in have, lambda: '%s: property %r missing (have %r)' % (what, k, have))
+            r = _check_told_dtype(L0, k, told, k, what) if k != 'atype' else 0.0     # Atoms keeps its own integer type for atype
             u = units.get(k)
             if u == 'scaled':
                 conv = True
                 labels.add('scaled')
                 r_s, r_x = scaled_roundoff(S)
                 ds = tol_for(fmt, 1.0, s) + r_s
-                tol = (ds @ np.abs(V) + r_x)[order]
+                tol = (ds @ np.abs(V) + r_x)[order] + _rtol(r, exp)
                 try:
                     cmp_values(k, L0.atoms.view[k], exp, tol, what)
                 except Violation as v:
@@ -1215,7 +1749,26 @@ def judge_table(am, system, S, opt, pert, tmp, labels, ux=None):
                 conv = True
                 labels.add('unit_conv')
                 U = float(uc.set_in_units(1.0, u))
-            cmp_values(k, L0.atoms.view[k], exp, tol_for(fmt, U, exp), what)
+            known.cmp(k, L0.atoms.view[k], exp, tol_for(fmt, U, exp) + _rtol(r, exp), what)
+        # ---- what the caller does in between (round 5)
+        def other():
+            S2 = _other_snapshot(S)
+            judge_table(am, G.make_system(am, S2), S2, opt, pert, tmp, set(), None, led, None if x is None else dict(x, post=[]))
+
+        def redump():
+            t2, r2 = _dump(G.make_system(am, S0), 'table', opt['target'], tmp, **dargs.fresh())
+            require(t2 == text, lambda: '%s of an identical fresh system a second time gives another text:\n%s\nfirst:\n%s' % (whatd, t2, text))
+            require(_same_tree(r2[0], pi0), lambda: '%s a second time returns another prop_info: %r, first %r' % (whatd, r2[0], pi0))
+            led.add_info(r2[0], whatd + ' (second time)')
+        own_pi = kw.get('prop_info') is prop_info
+        fp0, plabs = _post_ops(x, led, system, L0, prop_info, dargs, largs, None if ux is not None and ux.crossed else redump, other)
+        labels |= plabs
+        kw = largs.fresh()
+        if own_pi:
+            kw['prop_info'] = copy.deepcopy(pi0)
+        # the loaded System keeps the Box it was given (System(box=) points to the object it gets: documented there); the
+        # second load gets a Box of its own, the first one is the caller's to keep as it is
+        kw['box'] = am.Box(vects=box0[0], origin=box0[1])
         # ---- perturbed / other source
         can_shuffle = id_col
         text2 = perturb_table(text, n, pert, bool(opt['header']), can_shuffle)
@@ -1226,7 +1779,9 @@ def judge_table(am, system, S, opt, pert, tmp, labels, ux=None):
         what2 = what + ' after %s, given as %s' % (
             '+'.join(k for k in ('shuffle', 'comments', 'blank') if pert[k] and (k != 'shuffle' or can_shuffle)) or 'no change', pert['source'])
         L1 = _load(am, 'table', src, **kw2)
-        same_system(L0, L1, what2)
+        led.add_system(L1, what2)
+        same_as_record(fp0, L1, what2)
+        known.raise_if_found()
         perm_moves = can_shuffle and pert['shuffle'] and _perm(pert['keys'], n) != list(range(n))
         if perm_moves:
             labels.add('shuffled')
@@ -1274,12 +1829,16 @@ def poscar_cases(draw):
     give_symbols = False
     if sysd['symbols'] is None or None in sysd['symbols']:
         give_symbols = draw(st.integers(0, 2)) == 0
-    return {'sys': sysd,
+    case = {'sys': sysd,
             'opt': {'coordstyle': draw(st.sampled_from(COORDSTYLES)), 'scale': scale, 'fmt': draw(st.sampled_from(POSCAR_FORMATS)),
                     'header': draw(st.sampled_from(['', 'Al fcc', 'round trip # 1', '8 atoms of something'])),
                     'give_symbols': give_symbols, 'target': draw(TARGETS)},
             'pert': {'trail': draw(_bool), 'indent': draw(_bool), 'eof': draw(_bool), 'source': draw(SOURCES)},
             'units': draw(G.S_PLAN_NOCROSS)}
+    case = _with_x(case, draw(G.S_X), False)
+    if sc == 'a':
+        case['opt']['scale'] = float(np.linalg.norm(G.snapshot(case['sys'])['V'][0]))       # |a| of the final cell
+    return case
 
 
 def perturb_poscar(text, n, pert, has_symbols):
@@ -1318,21 +1877,24 @@ def oracle_poscar(case):
     return _with_units(case, _run_poscar)
 
 
-def _run_poscar(am, case, ux):
+def _run_poscar(am, case, ux, led=None):
     sysd = case['sys']
+    x = case.get('x') or X_PLAIN
     S = G.snapshot(sysd)
     if ux is not None:
         S = G.physical(S)
+    S = G.stored(S, x['store'])
     tmp = _Tmp()
     try:
-        return judge_poscar(am, G.make_system(am, S), S, case['opt'], case['pert'], tmp, cell_labels(S, sysd))
+        return judge_poscar(am, G.make_system(am, S), S, case['opt'], case['pert'], tmp, cell_labels(S, sysd), led, x)
     finally:
         tmp.close()
 
 
-def judge_poscar(am, system, S, opt, pert, tmp, labels):
+def judge_poscar(am, system, S, opt, pert, tmp, labels, led=None, x=None):
     """one dump('poscar') of `system` (whose state is the snapshot S) + load, judged against S"""
     n = len(S['s'])
+    led = led if led is not None else _Ledger()
     fmt, scale = _wfmt(opt['fmt']), float(opt['scale'])
     cart = opt['coordstyle'][0] in 'cCkK'
     labels.update({'fmt_' + fmt[-1], 'src_' + pert['source'], 'cartesian' if cart else 'direct'})
@@ -1343,15 +1905,29 @@ def judge_poscar(am, system, S, opt, pert, tmp, labels):
         if opt['give_symbols'] and not full:
             given = [G.ELEMENTS[(2 + 3 * i) % len(G.ELEMENTS)] for i in range(system.natypes)]
             kwd['symbols'] = given
+        if x is not None and x['store'] is not None and x['store'][7] % 4:
+            # input forms of the scale factor: an int where it is integral, numpy scalars
+            form = x['store'][7] % 4
+            kwd['box_scale'] = (int(scale) if scale == int(scale) else scale) if form == 1 else np.float64(scale) if form == 2 else \
+                np.float32(scale) if float(np.float32(scale)) == scale else np.float64(scale)
+            labels.add('scale_form_' + type(kwd['box_scale']).__name__)
+            if given is not None:
+                kwd['symbols'] = tuple(given)
+        dargs = _Args(kwd)
+        before = _fingerprint(system)
         try:
             text, rest = _dump(system, 'poscar', opt['target'], tmp, **kwd)
         except ValueError as e:
             if 'truth value of an empty array' in str(e) or 'truth value of an array' in str(e):
                 raise Violation("dump('poscar') raises ValueError: %s" % str(e)[:150], key=K_POSCAR) from None
             raise
+        whatd = "dump('poscar', %s)" % ', '.join('%s=%r' % kv for kv in sorted(dargs.pristine.items()))
+        _after_dump(dargs, before, system, whatd)
+        led.add_input(system, whatd)
         what = "load('poscar') of dump('poscar', coordstyle=%r, box_scale=%r, float_format=%r, symbols=%r)" % (
-            opt['coordstyle'], scale, fmt, given)
+            opt['coordstyle'], kwd['box_scale'], fmt, given)
         L0 = am.load('poscar', text)
+        led.add_system(L0, what)
         require(L0.natoms == n, lambda: '%s: natoms %d, expected %d' % (what, L0.natoms, n))
         # ---- cell (no origin in the format)
         V, o, s = S['V'], S['o'], S['s']
@@ -1398,14 +1974,27 @@ def judge_poscar(am, system, S, opt, pert, tmp, labels):
                     ok = False
                     break
             okany = okany or ok
+        if not okany and cart and float(kwd['box_scale']) != 1.0 and (S.get('store') or {}).get('pos', ('f8',))[0] == 'f4':
+            raise Violation('%s: positions not reproduced:\n%r\nexpected\n%r [the system stores pos as float32 and the writer divides '
+                            'the Cartesian coordinates by box_scale in that dtype]' % (what, got.tolist(), cands[0].tolist()), key=K_POSCAR_F4)
         require(okany, lambda: '%s: positions (type-wise multisets%s) not reproduced:\n%r\nexpected\n%r' % (
             what, ', up to the origin shift' if cart else ', relative to the cell', got.tolist(), cands[0].tolist()))
         # ---- perturbed / other source
         text2 = perturb_poscar(text, n, pert, expsym is not None)
         src = tmp.source(pert['source'], text2)
         what2 = what + ' after %s, given as %s' % ('+'.join(k for k in ('trail', 'indent', 'eof') if pert[k]) or 'no change', pert['source'])
+        def other():
+            S2 = _other_snapshot(S)
+            judge_poscar(am, G.make_system(am, S2), S2, opt, pert, tmp, set(), led, None)
+
+        def redump():
+            t2, _ = _dump(G.make_system(am, S), 'poscar', opt['target'], tmp, **dargs.fresh())
+            require(t2 == text, lambda: '%s of an identical fresh system a second time gives another text:\n%s\nfirst:\n%s' % (whatd, t2, text))
+        fp0, plabs = _post_ops(x, led, system, L0, None, dargs, _Args({}), redump, other)
+        labels |= plabs
         L1 = am.load('poscar', src)
-        same_system(L0, L1, what2)
+        led.add_system(L1, what2)
+        same_as_record(fp0, L1, what2)
         if scale != 1.0:
             labels.add('scaled_box')
         if pert['source'] in ('bytesio', 'file'):
@@ -1495,7 +2084,7 @@ def history_cases(draw):
     mid, cfg, at, how = draw(_bool), draw(G.S_CFG), draw(st.integers(1, 4)), draw(st.sampled_from(['setters', 'rebuild']))
     if plan is not None and mid:
         steps.insert(1 + (at - 1) % (len(steps) - 1), {'op': 'units', 'cfg': G._other_than(cfg, plan['W']), 'how': how})
-    return {'sys': sysd, 'steps': steps, 'units': plan}
+    return _with_x({'sys': sysd, 'steps': steps, 'units': plan}, draw(G.S_X), True)
 
 
 def _with_state(S, V, o, pos):
@@ -1536,7 +2125,8 @@ def _after_inplace_wrap(system, S, what):
     require(np.abs(m - np.round(m)).max() <= t and (np.abs(m[:, ~pbc]) <= t).all(),
             lambda: '%s: the atoms of the object moved by %r box vectors (whole vectors along periodic directions only)' % (what, m.tolist()))
     k = np.array([V2[i] @ V[i] / (V[i] @ V[i]) for i in range(3)])
-    require(np.abs(V2 - k[:, None] * V).max() <= 1e-9 * sc and (k >= 1 - 1e-9).all() and (np.abs(k[pbc] - 1) <= 1e-9).all(),
+    # (a component up to 1e-9 of the largest one of the NEW cell is zeroed by Box: documented clean-up)
+    require(np.abs(V2 - k[:, None] * V).max() <= 1.01e-9 * max(sc, np.abs(V2).max()) and (k >= 1 - 1e-9).all() and (np.abs(k[pbc] - 1) <= 1e-9).all(),
             lambda: '%s: the box of the object became\n%r\nfrom\n%r' % (what, V2, V))
     s2 = (p2 - o2) @ np.linalg.inv(V2)
     require((s2 >= -t).all() and (s2 <= 1 + t).all(),
@@ -1553,9 +2143,10 @@ def oracle_history(case):
     import atomman.unitconvert as uc
     plan = case.get('units')
     try:
+        led = _Ledger()
         if plan is None:
             try:
-                return _history(am, uc, case, False)
+                return _history(am, uc, case, False, led)
             except Violation as v:
                 raise Violation(v.detail + _trail_note([s_['cfg'] for s_ in case['steps'] if s_['op'] == 'units']), key=v.key) from None
         own = [plan[k] for k in ('pre', 'W') if plan[k] is not None] + [s_['cfg'] for s_ in case['steps'] if s_['op'] == 'units']
@@ -1563,13 +2154,14 @@ def oracle_history(case):
             head = [st_ for st_ in case['steps'] if st_['op'] in ('data', 'dump', 'table', 'poscar')][:1]
             _apply(uc, plan['pre'])
             try:
-                _history(am, uc, {'sys': case['sys'], 'steps': head}, True)
+                _history(am, uc, {'sys': case['sys'], 'steps': head, 'x': case.get('x')}, True, led)
+                led.rounds += 1
             except Violation as v:
                 raise Violation('%s [fresh object under %s]%s' % (v.detail, _cfg_text(plan['pre']), _trail_note(own)), key=v.key) from None
         _apply(uc, plan['W'])
         ulabs = _unit_labels(plan, False)
         try:
-            labels = _history(am, uc, case, True)
+            labels = _history(am, uc, case, True, led)
         except Violation as v:
             raise Violation('%s [history under %s%s]%s' % (
                 v.detail, _cfg_text(plan['W']), ', after its first dump + load on a fresh object under %s in the same process'
@@ -1579,13 +2171,18 @@ def oracle_history(case):
         G.restore_units(uc)
 
 
-def _history(am, uc, case, phys):
+def _history(am, uc, case, phys, led=None):
     sysd = case['sys']
+    x = case.get('x') or X_PLAIN
+    led = led if led is not None else _Ledger()
     S = G.snapshot(sysd)
     if phys:
         S = G.physical(S)
+    # storage forms of a history: the steps assign new float64 arrays, so no narrow float storage; positions are written in
+    # place (wrap, slice assignment), so no read-only arrays
+    S = G.stored(S, x['store'], narrow_float=False, readonly=False)
     base = cell_labels(S, sysd)
-    labels = set()
+    labels = {l for l in base if l.split('_')[0] in ('tiny', 'sym', 'near', 'vals', 'store')}
     n = len(S['s'])
     tmp = _Tmp()
     done = []
@@ -1601,7 +2198,11 @@ def _history(am, uc, case, phys):
                 if op in ('data', 'dump', 'table', 'poscar'):
                     judge = {'data': judge_data, 'dump': judge_dump, 'table': judge_table, 'poscar': judge_poscar}[op]
                     before = _raw_state(system)
-                    sub = judge(am, system, S, step['opt'], step['pert'], tmp, set(base))
+                    sub = judge(am, system, S, step['opt'], step['pert'], tmp, set(base), led=led)
+                    # every System loaded in the earlier steps is still what it was (and so are the returned prop_info)
+                    led.inputs = []
+                    led.verify(labels, hist)
+                    led.rounds += 1
                     ndumps += 1
                     labels.add('dumped_' + op)
                     needs_rel = op == 'data' or 'scaled' in sub or 'scaled_cols' in sub or 'direct' in sub
@@ -1717,7 +2318,12 @@ def _history(am, uc, case, phys):
                     elif w == 'relative':
                         system.box.position_cartesian_to_relative(S['pos'][:1])
                     else:
-                        system.atoms_df(scale=['pos'])
+                        try:
+                            system.atoms_df(scale=['pos'])
+                        except ValueError as e:
+                            if 'Big-endian buffer not supported' not in str(e):
+                                raise
+                            raise Violation('System.atoms_df raises ValueError: %s (columns in non-native byte order)' % e, key=K_BIGENDIAN) from None
                     labels.add('read_between')
                     done.append('read ' + w)
             except Violation as v:
@@ -1726,6 +2332,143 @@ def _history(am, uc, case, phys):
                 raise Violation(v.detail + hist, key=v.key) from None
         if ndumps >= 2 and ('rel_after_inplace_wrap' in labels or 'rel_after_modification' in labels):
             labels.add('nt')
+        return labels
+    finally:
+        tmp.close()
+
+
+# ============================================================================= combos (enumerated, round 5)
+
+# Options and sub-styles that go through the same tables or the same DataFrame columns, in every combination and order:
+#   styles  every ordered pair (a, b) of the 18 atom styles as ONE sequence in one process: 'hybrid a b', b, a, 'atomic', each
+#           written and loaded by judge_data on its own system, the ledger kept across the sequence (a column table that is
+#           remembered, or extended in place for the hybrid, shows in the next style)
+#   posvars every ordered non-empty subset of the pos / spos / upos / supos columns of a dump file x three unit treatments
+#   table   every writer route x loader route x unit of the pos column x header x id column
+#   poscar  every coordstyle x scale factor (float and int) x symbols source x float format
+_COMBO_CELL = {'lx': 4.0, 'ly': 5.5, 'lz': 6.25, 'xy': -1.25, 'xz': 0.75, 'yz': 2.0, 'origin': [1.5, -2.25, 0.5], 'rot': None,
+               'lefthanded': False}
+_COMBO_REL = [[0.25, 0.5, 0.75], [1.5, -0.25, 0.125], [0.0, 0.5, 1.0], [-0.75, 2.25, 0.625]]
+_STYLE_UNITS = ('real', 'si', 'nano', 'cgs', 'metal', 'micro', 'electron', 'lj')
+
+
+def _combo_sys(seed, want, atom_id=False, lammps=True):
+    rng = np.random.default_rng(seed)
+    props = [{'name': nm, 'shape': list(shape), 'dtype': dt, 'q': q, 'values': G._fill(rng, 4, shape, dt, q)} for nm, shape, dt, q in want]
+    if atom_id:
+        props.append({'name': 'atom_id', 'shape': [], 'dtype': 'i', 'q': None, 'values': [12, 3, 40, 7]})
+    cell = dict(_COMBO_CELL)
+    if not lammps:
+        cell['rot'] = [[1, 2, -1], 35.0]
+    return {'cell': cell, 'pbc': [True, False, True], 'rel': [list(r) for r in _COMBO_REL], 'atype': [1, 3, 1, 3], 'ntypes': 3,
+            'symbols': ['Al', 'Cu', 'Fe'], 'props': props}
+
+
+def combos_enum(tier):
+    cases = []
+    k = 0
+    for a in G.BASE_STYLES:
+        for b in G.BASE_STYLES:
+            if a == b:
+                continue
+            for u in (_STYLE_UNITS if tier == 'thorough' else (_STYLE_UNITS[k % len(_STYLE_UNITS)],)):
+                for vel in ((False, True) if tier == 'thorough' else (bool((k // 3) % 2),)):
+                    cases.append({'kind': 'styles', 'a': a, 'b': b, 'units': u, 'vel': vel, 'k': k})
+            k += 1
+    k = 0
+    for r in (1, 2, 3, 4):
+        for cols in itertools.permutations(POSVARS, r):
+            for umode in (0, 1, 2):
+                cases.append({'kind': 'posvars', 'cols': list(cols), 'umode': umode, 'units': G.UNIT_STYLES[k % 7], 'id': bool(k % 3), 'k': k})
+                k += 1
+    k = 0
+    for pu in (None, 'scaled', 'nm', 'angstrom'):
+        for dvia in ('lists', 'prop_info'):
+            for lvia in ('lists', 'prop_info', 'returned'):
+                for header in (False, True):
+                    for idc in (False, True):
+                        cases.append({'kind': 'table', 'pos_unit': pu, 'dvia': dvia, 'lvia': lvia, 'header': header, 'id': idc, 'k': k})
+                        k += 1
+    k = 0
+    for cs in COORDSTYLES[:6]:
+        for sc in (1.0, 0.5, 3.7, 2):
+            for sym in ('system', 'given', 'none'):
+                for fmt in POSCAR_FORMATS:
+                    cases.append({'kind': 'poscar', 'coordstyle': cs, 'scale': sc, 'symbols': sym, 'fmt': fmt, 'k': k})
+                    k += 1
+    return cases
+
+
+_PERT0 = {'keys': [5, 1, 9, 3, 0, 0, 0, 0, 0, 0, 0, 0], 'keys2': [2, 8, 1, 7, 0, 0, 0, 0, 0, 0, 0, 0], 'shuffle': True, 'comments': False,
+          'blank': False, 'title': False, 'source': 'str', 'trail': False, 'indent': False, 'eof': False}
+
+
+def oracle_combos(case):
+    import atomman as am
+    kind, k = case['kind'], case['k']
+    led = _Ledger()
+    tmp = _Tmp()
+    labels = {'combo_' + kind}
+    try:
+        if kind == 'styles':
+            a, b, units = case['a'], case['b'], case['units']
+            seq = ['hybrid %s %s' % (a, b), b, a, 'atomic']
+            for j, style in enumerate(seq):
+                u = units if G.style_allowed(style, units) else 'metal'
+                cols, vcols = G.style_props(style)
+                want = list(cols) + ([('velocity', (3,), 'f', 'velocity')] + list(vcols) if case['vel'] else [])
+                sysd = _combo_sys(1000 * k + j, want)
+                S = G.snapshot(sysd)
+                opt = {'style': style, 'units': u, 'fmt': G.FORMATS[u][(k + j) % 4], 'safecopy': bool((k + j) % 2), 'target': 'str',
+                       'give_style': bool((k // 2 + j) % 2)}
+                try:
+                    sub = judge_data(am, G.make_system(am, S), S, opt, dict(_PERT0, shuffle=bool(j % 2)), tmp, cell_labels(S, sysd), None, led, None)
+                    led.verify(labels)
+                except Violation as v:
+                    raise Violation('%s [style %d of the sequence %r in one process]' % (v.detail, j + 1, seq), key=v.key) from None
+                labels |= {x_ for x_ in sub if x_ in ('hybrid', 'velocities', 'imageflags', 'shuffled_flags', 'nt')}
+                led.rounds += 1
+            if set(c[0] for c in G.STYLE_PROPS[a]) & set(c[0] for c in G.STYLE_PROPS[b]):
+                labels.add('shared_column')
+        elif kind == 'posvars':
+            cols_ = case['cols']
+            sysd = _combo_sys(77 + k, [('force', (3,), 'f', 'force'), ('stress', (3, 3), 'f', None)], atom_id=case['id'])
+            S = G.snapshot(sysd)
+            prop_name = (['atom_id'] if case['id'] else []) + ['atype'] + cols_ + ['force', 'stress']
+            cols = None
+            if case['umode']:
+                tok = {1: {'pos': 'scaled', 'upos': 'std', 'spos': 'scaled', 'supos': 'scaled'},
+                       2: {'pos': 'nm', 'upos': None, 'spos': 'scaled', 'supos': 'scaled'}}[case['umode']]
+                cols = {'dvia': 'lists' if case['umode'] == 1 else 'prop_info', 'dmask': 0, 'dflav': 'lammps' if k % 2 else 'default',
+                        'lvia': ('returned', 'lists', 'prop_info')[k % 3], 'lmask': 0, 'lflav': 'lammps' if k % 2 else 'default',
+                        'dtypes': [False], 'units': [tok.get(nm, 'std' if nm == 'force' else None) for nm in prop_name]}
+            opt = {'units': case['units'], 'fmt': G.FORMATS[case['units']][k % 4], 'target': 'str', 'prop_name': prop_name,
+                   'use_prop_info': True, 'cols': cols}
+            labels |= judge_dump(am, G.make_system(am, S), S, opt, dict(_PERT0, shuffle=True), tmp, cell_labels(S, sysd), None, led, None)
+            labels.add('posvars_%d' % len(cols_))
+        elif kind == 'table':
+            sysd = _combo_sys(5 + k, [('velocity', (3,), 'f', 'velocity'), ('stress', (3, 3), 'f', None), ('w1', (1,), 'f', None)],
+                              atom_id=True, lammps=False)
+            S = G.snapshot(sysd)
+            names = (['atom_id'] if case['id'] else []) + ['atype', 'pos', 'velocity', 'stress', 'w1']
+            unit = {'pos': case['pos_unit'], 'velocity': 'm/s', 'stress': 'GPa' if k % 2 else None}
+            entries = [{'name': nm, 'unit': unit.get(nm), 'as_id': nm == 'atom_id'} for nm in names]
+            cols = {'dvia': case['dvia'], 'dmask': 0, 'dflav': 'prefixed' if case['id'] else 'default', 'lvia': case['lvia'], 'lmask': 0,
+                    'lflav': 'prefixed' if case['id'] else 'default', 'dtypes': [bool(k % 2), False, True]}
+            opt = {'entries': entries, 'fmt': ('%.13f', '%.16e', '%.8f', '%.5e')[k % 4], 'header': case['header'], 'target': 'str', 'cols': cols}
+            labels |= judge_table(am, G.make_system(am, S), S, opt, dict(_PERT0, comments=bool(k % 2)), tmp, cell_labels(S, sysd), None, led, None)
+        else:
+            sysd = _combo_sys(9 + k, [], lammps=False)
+            if case['symbols'] != 'system':
+                sysd['symbols'] = None
+                sysd['ntypes'] = 3
+            S = G.snapshot(sysd)
+            opt = {'coordstyle': case['coordstyle'], 'scale': case['scale'], 'fmt': case['fmt'], 'header': 'combo # %d' % k,
+                   'give_symbols': case['symbols'] == 'given', 'target': 'str'}
+            labels |= judge_poscar(am, G.make_system(am, S), S, opt, dict(_PERT0, indent=bool(k % 2), trail=bool(k % 3)), tmp,
+                                   cell_labels(S, sysd), led, None)
+        led.verify(labels)
+        labels.add('nt')
         return labels
     finally:
         tmp.close()
@@ -1821,8 +2564,9 @@ def oracle_reject(case):
 # ============================================================================= clauses
 
 CLAUSES = [
-    Clause('data_file', oracle_data, data_cases, quick=1700, thorough=34000,
-           min_share=_Guards({'nt': 0.08, 'imageflags': 0.1, 'shuffled': 0.02, 'hybrid': 0.05, 'extended': 0.2,
+    Clause('data_file', oracle_data, data_cases, quick=1600, thorough=38000,
+           min_share=_Guards({'tiny_tilt': 0.07, 'tiny_1e-9_1e-6': 0.03, 'tiny_1e-6_1e-3': 0.025, 'sym': 0.06, 'near_face': 0.07, 'vals_decades': 0.05, 'vals_near': 0.03, 'store': 0.08, 'store_narrow_float': 0.07, 'store_narrow_int': 0.05, 'store_strided': 0.07, 'store_list': 0.065, 'post_other': 0.055, 'post_in': 0.13, 'post_out': 0.13, 'post_redump': 0.12, 'ledger': 0.3, 'ledger_other_natoms': 0.05, 'ledger_across_rounds': 0.1,
+                              'nt': 0.08, 'imageflags': 0.1, 'shuffled': 0.02, 'hybrid': 0.05, 'extended': 0.2,
                               'velocities': 0.14, 'comments_blank': 0.11, 'multitype': 0.06,
                               'units': 0.22, 'units_pre': 0.15, 'units_pre_default': 0.12, 'units_pre_other': 0.02,
                               'units_cross': 0.07, 'units_seed': 0.04, 'units_named': 0.15, 'units_A_lt1e-3': 0.08,
@@ -1830,8 +2574,10 @@ CLAUSES = [
            desc="load('atom_data', dump('atom_data')): cell after the documented wrap, types, positions with image flags "
                 "re-applied, every style column and the Velocities section, all styles/units/formats; shuffled lines, "
                 "comments, blank lines, string/path/stream give the identical system"),
-    Clause('dump_file', oracle_dump, dump_cases, quick=1550, thorough=31000,
-           min_share=_Guards({'units': 0.22, 'units_pre': 0.15, 'units_pre_default': 0.12, 'units_pre_other': 0.02,
+    Clause('dump_file', oracle_dump, dump_cases, quick=1450, thorough=35000,
+           min_share=_Guards({'tiny_tilt': 0.07, 'tiny_1e-9_1e-6': 0.03, 'tiny_1e-6_1e-3': 0.025, 'sym': 0.06, 'near_face': 0.07, 'vals_decades': 0.05, 'vals_near': 0.03, 'store': 0.08, 'store_narrow_float': 0.07, 'store_narrow_int': 0.05, 'store_strided': 0.07, 'store_list': 0.065, 'post_other': 0.055, 'post_in': 0.13, 'post_out': 0.13, 'post_redump': 0.12, 'ledger': 0.3, 'ledger_other_natoms': 0.05, 'ledger_across_rounds': 0.1,
+                              'told_dtype': 0.09, 'told_narrow_dtype': 0.02, 'pos_decades': 0.03,
+                              'units': 0.22, 'units_pre': 0.15, 'units_pre_default': 0.12, 'units_pre_other': 0.02,
                               'units_cross': 0.07, 'units_seed': 0.04, 'units_named': 0.15, 'units_A_lt1e-3': 0.08,
                               'units_A_ge1e-3': 0.08, 'nt': 0.09, 'shuffled': 0.08, 'with_prop_info': 0.16, 'own_ids': 0.09, 'scaled_cols': 0.05,
                               'unit_dim_shape': 0.23, 'one_column_shape': 0.15, 'explicit_columns': 0.17,
@@ -1839,8 +2585,10 @@ CLAUSES = [
                               'none_unit_std_prop': 0.05, 'explicit_dtype': 0.15}, 0),
            desc="load('atom_dump', dump('atom_dump')): cell from bounding box, pbc flags, ids, types, pos/spos/upos/supos, "
                 "standard columns with units and free properties with their shape through the returned prop_info"),
-    Clause('table', oracle_table, table_cases, quick=1400, thorough=26000,
-           min_share=_Guards({'units': 0.22, 'units_pre': 0.15, 'units_pre_default': 0.12, 'units_pre_other': 0.02,
+    Clause('table', oracle_table, table_cases, quick=1300, thorough=29000,
+           min_share=_Guards({'tiny_tilt': 0.07, 'tiny_1e-9_1e-6': 0.03, 'tiny_1e-6_1e-3': 0.025, 'sym': 0.06, 'near_face': 0.07, 'vals_decades': 0.05, 'vals_near': 0.03, 'store': 0.08, 'store_narrow_float': 0.07, 'store_narrow_int': 0.05, 'store_strided': 0.07, 'store_list': 0.065, 'post_other': 0.055, 'post_in': 0.13, 'post_out': 0.13, 'post_redump': 0.12, 'ledger': 0.3, 'ledger_other_natoms': 0.05, 'ledger_across_rounds': 0.1,
+                              'told_dtype': 0.1, 'told_narrow_dtype': 0.03, 'pos_decades': 0.035, 'sym_perm': 0.025, 'lefthanded': 0.008,
+                              'units': 0.22, 'units_pre': 0.15, 'units_pre_default': 0.12, 'units_pre_other': 0.02,
                               'units_cross': 0.04, 'units_seed': 0.04, 'units_named': 0.15, 'units_A_lt1e-3': 0.08,
                               'units_A_ge1e-3': 0.08, 'nt': 0.2, 'rank2plus': 0.2, 'unit_conv': 0.14, 'header': 0.15, 'shuffled': 0.04,
                               'unit_dim_shape': 0.26, 'one_column_shape': 0.18, 'explicit_columns': 0.18,
@@ -1848,14 +2596,18 @@ CLAUSES = [
                               'mixed_none_units': 0.13}, 0),
            desc="load('table', dump('table'), prop_info=<returned>): every property with shape, unit/scaled conversion "
                 "undone, header line, comments, blank lines, id column"),
-    Clause('poscar', oracle_poscar, poscar_cases, quick=1400, thorough=31000,
-           min_share=_Guards({'units': 0.22, 'units_pre': 0.15, 'units_pre_default': 0.12, 'units_pre_other': 0.02,
+    Clause('poscar', oracle_poscar, poscar_cases, quick=1300, thorough=34000,
+           min_share=_Guards({'tiny_tilt': 0.07, 'tiny_1e-9_1e-6': 0.03, 'tiny_1e-6_1e-3': 0.025, 'sym': 0.06, 'near_face': 0.07, 'store': 0.08, 'store_narrow_float': 0.07, 'store_narrow_int': 0.04, 'store_strided': 0.07, 'store_list': 0.065, 'post_other': 0.055, 'post_in': 0.13, 'post_out': 0.13, 'post_redump': 0.12, 'ledger': 0.3, 'ledger_other_natoms': 0.05, 'ledger_across_rounds': 0.1,
+                              'sym_perm': 0.025, 'lefthanded': 0.008, 'store_pos_f4': 0.02,
+                              'units': 0.22, 'units_pre': 0.15, 'units_pre_default': 0.12, 'units_pre_other': 0.02,
                               'units_seed': 0.04, 'units_named': 0.15, 'units_A_lt1e-3': 0.08, 'units_A_ge1e-3': 0.08,
                               'nt': 0.2, 'cartesian': 0.25, 'scaled_box': 0.3, 'type_gap': 0.15, 'symbols_line': 0.2, 'multitype': 0.14}, 1),
            desc="load('poscar', dump('poscar')): cell (scale factor), types grouped, symbols line, positions as type-wise "
                 "multisets (direct: relative coordinates; Cartesian: up to the origin shift)"),
-    Clause('history', oracle_history, history_cases, quick=620, thorough=13000,
-           min_share=_Guards({'units': 0.22, 'units_pre': 0.15, 'units_pre_default': 0.12, 'units_pre_other': 0.02,
+    Clause('history', oracle_history, history_cases, quick=580, thorough=14500,
+           min_share=_Guards({'ledger': 0.45, 'ledger_across_rounds': 0.4, 'tiny_tilt': 0.06, 'sym': 0.05, 'near_face': 0.06,
+                              'store': 0.08, 'store_narrow_int': 0.04, 'store_strided': 0.05,
+                              'units': 0.22, 'units_pre': 0.15, 'units_pre_default': 0.12, 'units_pre_other': 0.02,
                               'units_seed': 0.03, 'units_named': 0.15, 'units_A_lt1e-3': 0.07, 'units_step': 0.08,
                               'units_step_setters': 0.04, 'units_step_rebuild': 0.03, 'redump_after_units_step': 0.06,
                               'nt': 0.17, 'redump': 0.4, 'rel_after_inplace_wrap': 0.15, 'rel_after_inplace_extension': 0.13,
@@ -1865,6 +2617,11 @@ CLAUSES = [
                 "box/positions/pbc modified through the public setters in between: every dump + load judged as in the "
                 "single-dump clauses against the state of the object at that moment; safecopy=True and the other writers "
                 "leave the object as it was"),
+    Clause('combos', oracle_combos, enumerate=combos_enum, quick=1100, thorough=6000,
+           min_share={'combo_styles': 0.1, 'combo_posvars': 0.02, 'combo_table': 0.01, 'combo_poscar': 0.04, 'ledger': 0.5},
+           desc="enumerated: every ordered pair of atom styles as one sequence in one process (hybrid a b, b, a, atomic), every "
+                "ordered subset of the pos/spos/upos/supos columns x unit treatment, every writer route x loader route x pos "
+                "unit of a table, every coordstyle x scale x symbols x format of POSCAR; judged by the same judge_* functions"),
     Clause('reject', oracle_reject, reject_cases, quick=1000, thorough=20000, min_share={'nt': 0.35},
            desc="a data file without its atom count, a bounds line or its Atoms section raises FileFormatError"),
 ]
